@@ -1,6 +1,7 @@
 import MdkVerif.Model.Client
 import MdkVerif.Proofs.Client
 import MdkVerif.Props.C01Fork
+import MdkVerif.Props.C01Chain
 /-
   C01 — Members converge on one MIP-03-selected group state under races and reordering.
   This file: the MIP-03 order and its agreement with `is_better_candidate`; what one client does with
@@ -176,6 +177,257 @@ theorem single_fork_needs_membership : ¬ C01Fork.single_fork_any_target_full :=
 /-- the excluded configuration of the bystander theorem: retention 0 -/
 theorem single_fork_needs_retention : ¬ C01Fork.single_fork_bystander_full := C01Fork.single_fork_bystander_full_false
 
-/-! (the chain theorems of Props/C01Chain.lean are being repaired against the widened client model and are re-attached here afterwards) -/
+
+/-! ### many clients and chains of forks (proved in Props/C01Chain.lean over Proofs/Chain.lean; restated here
+    so that this module's audit covers them).  Common hypothesis: LEVEL-BY-LEVEL delivery, every client
+    offered every sibling of every level; the statement for every schedule is `C01Chain.C01_full`, refuted
+    by `chain_needs_level_by_level`.  With the widened client model: the client is active, its record's id is
+    the extension's, every event carries the id in force, no commit of the chain rotates the id or removes
+    the receiver (`ChainEv` / `LevelEv`: conditions on the events and the core of the start state). -/
+
+open MdkVerif.Fork MdkVerif.Chain MdkVerif.Props.C01Fork in
+/-- two clients at one fork, any combination of roles, own orders and repetitions: same MLS state, same group state -/
+theorem fork_agree (c1 c2 : Cl) (T l1 l2 : List Ev) (nx1 nx2 : Nat)
+    (h1 : AtFork c1 T) (h2 : AtFork c2 T) (hp : SameParent c1.g c2.g) (hmp : c1.maxPast = c2.maxPast)
+    (hl1 : Covers T l1) (hl2 : Covers T l2) (hne : T ≠ []) :
+    ∃ w, IsMin w T ∧
+      (run nx1 c1 l1).g.path = c1.g.path ++ [w.cipher] ∧
+      (run nx1 c1 l1).g.path = (run nx2 c2 l2).g.path ∧
+      wc (run nx1 c1 l1).g [] = wc (run nx2 c2 l2).g [] :=
+  C01Chain.fork_agree c1 c2 T l1 l2 nx1 nx2 h1 h2 hp hmp hl1 hl2 hne
+
+open MdkVerif.Fork MdkVerif.Chain MdkVerif.Props.C01Fork in
+/-- two clients offered the same SET of siblings (not necessarily all) agree -/
+theorem fork_agree_sameset (c1 c2 : Cl) (T l1 l2 : List Ev) (nx1 nx2 : Nat)
+    (h1 : AtFork c1 T) (h2 : AtFork c2 T) (hp : SameParent c1.g c2.g) (hmp : c1.maxPast = c2.maxPast)
+    (hl1 : ∀ e ∈ l1, e ∈ T) (hl2 : ∀ e ∈ l2, e ∈ T) (hset : ∀ e, e ∈ l1 ↔ e ∈ l2) (hne : l1 ≠ []) :
+    ∃ w, IsMin w l1 ∧
+      (run nx1 c1 l1).g.path = c1.g.path ++ [w.cipher] ∧
+      (run nx1 c1 l1).g.path = (run nx2 c2 l2).g.path ∧
+      wc (run nx1 c1 l1).g [] = wc (run nx2 c2 l2).g [] :=
+  C01Chain.fork_agree_sameset c1 c2 T l1 l2 nx1 nx2 h1 h2 hp hmp hl1 hl2 hset hne
+
+open MdkVerif.Fork MdkVerif.Chain MdkVerif.Props.C01Fork in
+/-- same epoch, MLS state, member set, whole group data, stored record, activity -/
+theorem fork_agree_data (c1 c2 : Cl) (T l1 l2 : List Ev) (nx1 nx2 : Nat)
+    (h1 : AtFork c1 T) (h2 : AtFork c2 T) (hp : SameParent c1.g c2.g) (hmp : c1.maxPast = c2.maxPast)
+    (hl1 : Covers T l1) (hl2 : Covers T l2) (hne : T ≠ []) :
+    epochOf (run nx1 c1 l1).g.path = epochOf (run nx2 c2 l2).g.path ∧
+    (run nx1 c1 l1).g.path = (run nx2 c2 l2).g.path ∧
+    (run nx1 c1 l1).g.members = (run nx2 c2 l2).g.members ∧
+    dataOf (run nx1 c1 l1).g = dataOf (run nx2 c2 l2).g ∧
+    (run nx1 c1 l1).g.recEpoch = (run nx2 c2 l2).g.recEpoch ∧
+    (run nx1 c1 l1).g.recName = (run nx2 c2 l2).g.recName ∧
+    (run nx1 c1 l1).g.recAdmins = (run nx2 c2 l2).g.recAdmins ∧
+    (run nx1 c1 l1).g.recDesc = (run nx2 c2 l2).g.recDesc ∧
+    (run nx1 c1 l1).g.recRelays = (run nx2 c2 l2).g.recRelays ∧
+    (run nx1 c1 l1).g.recNid = (run nx2 c2 l2).g.recNid ∧
+    (run nx1 c1 l1).g.pending = (run nx2 c2 l2).g.pending ∧
+    (run nx1 c1 l1).g.props = (run nx2 c2 l2).g.props ∧
+    (run nx1 c1 l1).g.active = (run nx2 c2 l2).g.active :=
+  C01Chain.fork_agree_data c1 c2 T l1 l2 nx1 nx2 h1 h2 hp hmp hl1 hl2 hne
+
+open MdkVerif.Fork MdkVerif.Chain MdkVerif.Props.C01Fork in
+/-- … with only path, members and group data shared at the start -/
+theorem fork_agree_core (c1 c2 : Cl) (T l1 l2 : List Ev) (nx1 nx2 : Nat)
+    (h1 : AtFork c1 T) (h2 : AtFork c2 T) (hp : core c1.g = core c2.g)
+    (hl1 : Covers T l1) (hl2 : Covers T l2) (hne : T ≠ []) :
+    ∃ w, IsMin w T ∧ core (run nx1 c1 l1).g = coreStep (core c1.g) w ∧ core (run nx2 c2 l2).g = coreStep (core c1.g) w :=
+  C01Chain.fork_agree_core c1 c2 T l1 l2 nx1 nx2 h1 h2 hp hl1 hl2 hne
+
+open MdkVerif.Fork MdkVerif.Chain MdkVerif.Props.C01Fork in
+/-- n clients at one fork -/
+theorem fork_agree_all (cs : List (Cl × List Ev × Nat)) (T : List Ev) (w : Ev) (g0 : GState) (mp : Nat)
+    (hw : IsMin w T)
+    (h : ∀ p ∈ cs, AtFork p.1 T ∧ SameParent p.1.g g0 ∧ p.1.maxPast = mp ∧ Covers T p.2.1) :
+    (∀ p ∈ cs, (run p.2.2 p.1 p.2.1).g.path = g0.path ++ [w.cipher] ∧
+      wc (run p.2.2 p.1 p.2.1).g [] = wc (childOfG mp g0 w) []) ∧
+    (∀ p ∈ cs, ∀ q ∈ cs, (run p.2.2 p.1 p.2.1).g.path = (run q.2.2 q.1 q.2.1).g.path ∧
+      wc (run p.2.2 p.1 p.2.1).g [] = wc (run q.2.2 q.1 q.2.1).g []) :=
+  C01Chain.fork_agree_all cs T w g0 mp hw h
+
+open MdkVerif.Fork MdkVerif.Chain MdkVerif.Props.C01Fork in
+/-- frame of `process_message`, every state / event / fuel -/
+theorem deliver_frame (fuel nx : Nat) (c : Cl) (e : Ev) :
+    (deliverN fuel nx c e).1.id = c.id ∧ (deliverN fuel nx c e).1.persistent = c.persistent ∧
+    (deliverN fuel nx c e).1.retention = c.retention ∧ (deliverN fuel nx c e).1.maxPast = c.maxPast ∧
+    (deliverN fuel nx c e).1.hasGroup = c.hasGroup ∧
+    (∀ n, n ≠ e.n → getRec c n = none → getRec (deliverN fuel nx c e).1 n = none) ∧
+    (∀ n r, n ≠ e.n → getRec c n = some r → rbRec (epochOf e.path) r = r → getRec (deliverN fuel nx c e).1 n = some r) ∧
+    (∀ n, n ≠ e.n → (getRec (deliverN fuel nx c e).1 n).isSome = (getRec c n).isSome) :=
+  C01Chain.deliver_frame fuel nx c e
+
+open MdkVerif.Fork MdkVerif.Chain MdkVerif.Props.C01Fork in
+/-- frame on the consumed ratchet generations (for every state satisfying the snapshot invariant `ConsMono`) -/
+theorem consumed_frame (fuel nx : Nat) (c : Cl) (e : Ev) (h : ConsMono c) :
+    (∀ x ∈ (deliverN fuel nx c e).1.g.consumed, x ∈ c.g.consumed ∨ x = e.cipher) ∧ ConsMono (deliverN fuel nx c e).1 :=
+  C01Chain.consumed_frame fuel nx c e h
+
+open MdkVerif.Fork MdkVerif.Chain MdkVerif.Props.C01Fork in
+/-- `ConsMono` holds of every reachable client state -/
+theorem consMono_reachable (id : Nat) (p : Bool) (r : Nat) (ms as : List Nat) (name : Nat) (ops : List C08.COp) :
+    ConsMono (ops.foldl C08.cstep (initCl id p r ms as name)) :=
+  C01Chain.consMono_reachable id p r ms as name ops
+
+open MdkVerif.Fork MdkVerif.Chain MdkVerif.Props.C01Fork in
+/-- … and the consumed frame does not hold for every state -/
+theorem consumed_frame_needs_inv :
+    ¬ (∀ (c : Cl) (e : Ev) (nx : Nat), ∀ x ∈ (deliver c e nx).1.g.consumed, x ∈ c.g.consumed ∨ x = e.cipher) :=
+  C01Chain.consumed_frame_needs_inv
+
+open MdkVerif.Fork MdkVerif.Chain MdkVerif.Props.C01Fork in
+/-- after a fork level the per-client hypotheses hold again one epoch later -/
+theorem fork_restores (c : Cl) (T l : List Ev) (nx : Nat) (hat : AtFork c T) (hb : Below c)
+    (hl : ∀ e ∈ l, e ∈ T) (hne : l ≠ []) :
+    (run nx c l).hasGroup = true ∧ (run nx c l).g.active = true ∧ 1 ≤ (run nx c l).retention ∧
+    SecretsOK (run nx c l).g ∧ Below (run nx c l) ∧
+    NoForkSnapshot (run nx c l) ∧ (run nx c l).id = c.id ∧ (run nx c l).maxPast = c.maxPast ∧
+    Synced (run nx c l).g ∧ (run nx c l).g.recNid = (run nx c l).g.nid ∧ (run nx c l).g.recNid = c.g.recNid ∧
+    (∃ w ∈ l, core (run nx c l).g = coreStep (core c.g) w) ∧
+    epochOf (run nx c l).g.path = epochOf c.g.path + 1 ∧
+    (∀ x ∈ (run nx c l).g.consumed, x ∈ c.g.consumed ∨ ∃ e ∈ T, e.cipher = x) :=
+  C01Chain.fork_restores c T l nx hat hb hl hne
+
+open MdkVerif.Fork MdkVerif.Chain MdkVerif.Props.C01Fork in
+/-- a chain of forks, one client, every level-by-level schedule -/
+theorem chain_bystander (c : Cl) (Ls : List Level) (ls : List (List Ev)) (nx : Nat)
+    (hg : c.hasGroup = true) (ha : c.g.active = true) (hr : 1 ≤ c.retention) (hsec : SecretsOK c.g) (hbelow : Below c)
+    (hn : c.g.recNid = c.g.nid)
+    (hch : ChainEv c.id (core c.g) Ls)
+    (hu : ∀ e ∈ evs Ls, getRec c e.n = none ∧ e.cipher ∉ c.g.consumed)
+    (hw : LevelWise Ls ls) :
+    (run nx c ls.flatten).g.path = c.g.path ++ Ls.map (·.1.cipher) ∧
+    wc (run nx c ls.flatten).g [] = wc (chainG c.maxPast c.g (Ls.map (·.1))) [] ∧
+    (∀ L ∈ Ls, (getRec (run nx c ls.flatten) L.1.n).map (·.state) = some 2) ∧
+    (∀ L ∈ Ls, ∀ e ∈ L.2, e ≠ L.1 →
+      ∃ r, getRec (run nx c ls.flatten) e.n = some r ∧ (r.state = 3 ∨ r.state = 4)) :=
+  C01Chain.chain_bystander c Ls ls nx hg ha hr hsec hbelow hn hch hu hw
+
+open MdkVerif.Fork MdkVerif.Chain MdkVerif.Props.C01Fork in
+/-- members and the whole group data after the chain: the winners' commits applied in order -/
+theorem chain_bystander_data (c : Cl) (Ls : List Level) (ls : List (List Ev)) (nx : Nat)
+    (hg : c.hasGroup = true) (ha : c.g.active = true) (hr : 1 ≤ c.retention) (hsec : SecretsOK c.g) (hbelow : Below c)
+    (hn : c.g.recNid = c.g.nid)
+    (hch : ChainEv c.id (core c.g) Ls)
+    (hu : ∀ e ∈ evs Ls, getRec c e.n = none ∧ e.cipher ∉ c.g.consumed)
+    (hw : LevelWise Ls ls) :
+    core (run nx c ls.flatten).g = (Ls.map (·.1)).foldl coreStep (core c.g) ∧
+    dataOf (run nx c ls.flatten).g = ((Ls.map (·.1)).foldl coreStep (core c.g)).2.2 ∧
+    (run nx c ls.flatten).g.members = ((Ls.map (·.1)).foldl coreStep (core c.g)).2.1 ∧
+    epochOf (run nx c ls.flatten).g.path = epochOf c.g.path + Ls.length ∧
+    (run nx c ls.flatten).g.active = true ∧
+    (run nx c ls.flatten).g.recNid = (run nx c ls.flatten).g.nid :=
+  C01Chain.chain_bystander_data c Ls ls nx hg ha hr hsec hbelow hn hch hu hw
+
+open MdkVerif.Fork MdkVerif.Chain MdkVerif.Props.C01Fork in
+/-- the chain theorem for every reachable client state -/
+theorem chain_reachable (id : Nat) (p : Bool) (r : Nat) (ms as : List Nat) (name : Nat) (ops : List C08.COp)
+    (Ls : List Level) (ls : List (List Ev)) (nx : Nat)
+    (hg : (ops.foldl C08.cstep (initCl id p r ms as name)).hasGroup = true)
+    (ha : (ops.foldl C08.cstep (initCl id p r ms as name)).g.active = true)
+    (hr : 1 ≤ (ops.foldl C08.cstep (initCl id p r ms as name)).retention)
+    (hch : ChainEv (ops.foldl C08.cstep (initCl id p r ms as name)).id (core (ops.foldl C08.cstep (initCl id p r ms as name)).g) Ls)
+    (hu : ∀ e ∈ evs Ls, getRec (ops.foldl C08.cstep (initCl id p r ms as name)) e.n = none ∧
+      e.cipher ∉ (ops.foldl C08.cstep (initCl id p r ms as name)).g.consumed)
+    (hw : LevelWise Ls ls) :
+    (run nx (ops.foldl C08.cstep (initCl id p r ms as name)) ls.flatten).g.path =
+      (ops.foldl C08.cstep (initCl id p r ms as name)).g.path ++ Ls.map (·.1.cipher) :=
+  C01Chain.chain_reachable id p r ms as name ops Ls ls nx hg ha hr hch hu hw
+
+open MdkVerif.Fork MdkVerif.Chain MdkVerif.Props.C01Fork in
+/-- a chain of forks, many clients (bystanders and committers of the first level), own schedules -/
+theorem chain_converges (ps : List C01Chain.Party) (g0 : GState) (mp : Nat) (w : Ev) (T : List Ev) (rest : List Level)
+    (hmin : IsMin w T) (hcross : ∀ e1 ∈ T, ∀ e2 ∈ evs rest, e1.n ≠ e2.n ∧ e1.cipher ≠ e2.cipher)
+    (h : ∀ p ∈ ps, C01Chain.PartyOK g0 mp w T rest p) :
+    (∀ p ∈ ps, p.final.g.path = g0.path ++ (w :: rest.map (·.1)).map (·.cipher) ∧
+      wc p.final.g [] = wc (chainG mp g0 (w :: rest.map (·.1))) []) ∧
+    (∀ p ∈ ps, ∀ q ∈ ps, p.final.g.path = q.final.g.path ∧ wc p.final.g [] = wc q.final.g []) :=
+  C01Chain.chain_converges ps g0 mp w T rest hmin hcross h
+
+open MdkVerif.Fork MdkVerif.Chain MdkVerif.Props.C01Fork in
+/-- same epoch, MLS state, member set, whole group data, stored record, activity for any two parties -/
+theorem chain_converges_data (ps : List C01Chain.Party) (g0 : GState) (mp : Nat) (w : Ev) (T : List Ev) (rest : List Level)
+    (hmin : IsMin w T) (hcross : ∀ e1 ∈ T, ∀ e2 ∈ evs rest, e1.n ≠ e2.n ∧ e1.cipher ≠ e2.cipher)
+    (h : ∀ p ∈ ps, C01Chain.PartyOK g0 mp w T rest p) :
+    ∀ p ∈ ps, ∀ q ∈ ps,
+      epochOf p.final.g.path = epochOf q.final.g.path ∧ p.final.g.path = q.final.g.path ∧
+      p.final.g.members = q.final.g.members ∧ dataOf p.final.g = dataOf q.final.g ∧
+      p.final.g.recEpoch = q.final.g.recEpoch ∧ p.final.g.recName = q.final.g.recName ∧
+      p.final.g.recAdmins = q.final.g.recAdmins ∧ p.final.g.recDesc = q.final.g.recDesc ∧
+      p.final.g.recRelays = q.final.g.recRelays ∧ p.final.g.recNid = q.final.g.recNid ∧
+      p.final.g.pending = q.final.g.pending ∧ p.final.g.props = q.final.g.props ∧
+      p.final.g.active = q.final.g.active ∧
+      epochOf p.final.g.path = epochOf g0.path + (rest.length + 1) ∧
+      core p.final.g = (w :: rest.map (·.1)).foldl coreStep (core g0) :=
+  C01Chain.chain_converges_data ps g0 mp w T rest hmin hcross h
+
+open MdkVerif.Fork MdkVerif.Chain MdkVerif.Props.C01Fork in
+/-- … with only path, members and group data shared at the start -/
+theorem chain_converges_core (ps : List C01Chain.Party) (k0 : Core) (w : Ev) (T : List Ev) (rest : List Level)
+    (hmin : IsMin w T) (hcross : ∀ e1 ∈ T, ∀ e2 ∈ evs rest, e1.n ≠ e2.n ∧ e1.cipher ≠ e2.cipher)
+    (h : ∀ p ∈ ps, AtFork p.c T ∧ Below p.c ∧ core p.c.g = k0 ∧ Covers T p.l ∧
+      ChainEv p.c.id (coreStep k0 w) rest ∧
+      (∀ e ∈ evs rest, getRec p.c e.n = none ∧ e.cipher ∉ p.c.g.consumed) ∧ LevelWise rest p.ls) :
+    ∀ p ∈ ps, core p.final.g = (w :: rest.map (·.1)).foldl coreStep k0 :=
+  C01Chain.chain_converges_core ps k0 w T rest hmin hcross h
+
+open MdkVerif.Fork MdkVerif.Chain MdkVerif.Props.C01Fork in
+/-- an event created on a branch the client is not on is refused and changes nothing but its own record -/
+theorem stale_refused (c : Cl) (e : Ev) (nx : Nat) (hs : SecretsOK c.g)
+    (hst : ¬ e.path <+: c.g.path) :
+    proj (deliver c e nx).1 = proj c ∧
+    ((deliver c e nx).1.g = c.g ∨ (deliver c e nx).1.g = ensureSecret c.g) ∧
+    (deliver c e nx).1.mgr = c.mgr ∧
+    (∀ m, m ≠ e.n → getRec (deliver c e nx).1 m = getRec c m) ∧
+    (∃ r, getRec (deliver c e nx).1 e.n = some r ∧ (r.state = 3 ∨ r.state = 4)) ∧
+    ((deliver c e nx).2 = .unprocessable ∨ (deliver c e nx).2 = .previouslyFailed ∨
+      (deliver c e nx).2 = .err eGroupNotFound ∨ (deliver c e nx).2 = .err eExportSecret ∨
+      (deliver c e nx).2 = .err eMessage) ∧
+    (routes c e = true → c.g.active = true →
+      (deliver c e nx).2 = .unprocessable ∨ (deliver c e nx).2 = .err eMessage) :=
+  C01Chain.stale_refused c e nx hs hst
+
+open MdkVerif.Fork MdkVerif.Chain MdkVerif.Props.C01Fork in
+/-- the chain theorem with stale events interleaved freely inside every level's delivery list -/
+theorem chain_bystander_stale (c : Cl) (Ls : List Level) (ls : List (List Ev)) (nx : Nat)
+    (hg : c.hasGroup = true) (ha : c.g.active = true) (hr : 1 ≤ c.retention) (hsec : SecretsOK c.g) (hbelow : Below c)
+    (hn : c.g.recNid = c.g.nid)
+    (hch : ChainEv c.id (core c.g) Ls)
+    (hu : ∀ e ∈ evs Ls, getRec c e.n = none ∧ e.cipher ∉ c.g.consumed)
+    (hw : LevelWiseS (evs Ls) c.g.path Ls ls) :
+    (run nx c ls.flatten).g.path = c.g.path ++ Ls.map (·.1.cipher) ∧
+    wc (run nx c ls.flatten).g [] = wc (chainG c.maxPast c.g (Ls.map (·.1))) [] ∧
+    (∀ L ∈ Ls, (getRec (run nx c ls.flatten) L.1.n).map (·.state) = some 2) ∧
+    (∀ L ∈ Ls, ∀ e ∈ L.2, e ≠ L.1 →
+      ∃ r, getRec (run nx c ls.flatten) e.n = some r ∧ (r.state = 3 ∨ r.state = 4)) :=
+  C01Chain.chain_bystander_stale c Ls ls nx hg ha hr hsec hbelow hn hch hu hw
+
+open MdkVerif.Fork MdkVerif.Chain MdkVerif.Props.C01Fork in
+/-- many clients, own schedules, stale events interleaved -/
+theorem chain_converges_stale (ps : List C01Chain.Party) (g0 : GState) (mp : Nat) (w : Ev) (T : List Ev) (rest : List Level)
+    (hmin : IsMin w T) (hcross : ∀ e1 ∈ T, ∀ e2 ∈ evs rest, e1.n ≠ e2.n ∧ e1.cipher ≠ e2.cipher)
+    (h : ∀ p ∈ ps, C01Chain.PartyOKS g0 mp w T rest p) :
+    (∀ p ∈ ps, p.final.g.path = g0.path ++ (w :: rest.map (·.1)).map (·.cipher) ∧
+      wc p.final.g [] = wc (chainG mp g0 (w :: rest.map (·.1))) []) ∧
+    (∀ p ∈ ps, ∀ q ∈ ps, p.final.g.path = q.final.g.path ∧ wc p.final.g [] = wc q.final.g []) :=
+  C01Chain.chain_converges_stale ps g0 mp w T rest hmin hcross h
+
+open MdkVerif.Fork MdkVerif.Chain MdkVerif.Props.C01Fork in
+/-- a rollback over two epochs (retention ≥ 2) -/
+theorem depth2_rollback (c : Cl) (a b a' : Ev) (nx : Nat)
+    (hg : c.hasGroup = true) (ha : c.g.active = true) (hr : 2 ≤ c.retention) (hsec : SecretsOK c.g) (hbelow : Below c)
+    (hnid : c.g.recNid = c.g.nid)
+    (hS : Siblings c [a, b]) (hab : a ≠ b) (hlt : klt (key b) (key a) = true)
+    (hc : ChildOf c a a') (hn : a'.n ≠ a.n ∧ a'.n ≠ b.n) (hci : a'.cipher ≠ a.cipher) :
+    (run nx c [a, a', b]).g.path = c.g.path ++ [b.cipher] ∧
+    wc (run nx c [a, a', b]).g [] = wc (childG c b) [] ∧
+    (getRec (run nx c [a, a', b]) b.n).map (·.state) = some 2 ∧
+    (getRec (run nx c [a, a', b]) a.n).map (·.state) = some 4 ∧
+    (getRec (run nx c [a, a', b]) a'.n).map (·.state) = some 4 :=
+  C01Chain.depth2_rollback c a b a' nx hg ha hr hsec hbelow hnid hS hab hlt hc hn hci
+
+/-- the level-by-level hypothesis is needed: convergence for every schedule is false of the code
+    (`handshake-before-predecessor-blocked`) -/
+theorem chain_needs_level_by_level : ¬ C01Chain.C01_full := C01Chain.C01_full_false
 
 end MdkVerif.Props.C01
